@@ -143,23 +143,84 @@ class TermBuilder:
         self.VAR = 'var' if args is None else 'cvar'      # multi-definition locals of an inlined callee are told apart from the root's
         self.args = args            # substituted actual terms when inlined, else None (-> ('arg', n))
         self.defs = {}              # local -> [(block, kind, payload)]
+        self.pos = {}               # id(payload) -> (block, statement index); a terminator sits behind the statements
         for bi in sorted(body.normal_blocks()):
             blk = body.blocks[bi]
-            for s in blk['s']:
+            for si, s in enumerate(blk['s']):
                 if s['k'] == 'assign' and len(s['p']) == 1:
                     self.defs.setdefault(s['p'][0], []).append((bi, 'rv', s['r']))
+                    self.pos[id(s['r'])] = (bi, si)
                 elif s['k'] == 'assign':
                     self.defs.setdefault(s['p'][0], []).append((bi, 'partial', s))
+                    self.pos[id(s)] = (bi, si)
             t = blk['t']
             if t['k'] == 'call' and t.get('d') and len(t['d']) == 1:
                 self.defs.setdefault(t['d'][0], []).append((bi, 'call', t))
+                self.pos[id(t)] = (bi, len(blk['s']))
             elif t['k'] == 'call' and t.get('d'):
                 self.defs.setdefault(t['d'][0], []).append((bi, 'partial', t))
+                self.pos[id(t)] = (bi, len(blk['s']))
         self.memo = {}
         self.var_defs = {}
+        self._rd = {}               # local -> {block: (IN set, OUT set)} of definition indices ('entry' = none yet)
+        self._expanding = set()
+
+    # -- reaching definitions of multi-definition locals
+    def reaching(self, l, site):
+        """indices (into self.defs[l]) of the definitions of l that reach the program point `site` = (block, statement index)"""
+        ds = self.defs.get(l, [])
+        bi, si = site
+        here = [(self.pos[id(pl)][1], k) for k, (b, kind, pl) in enumerate(ds) if b == bi and self.pos[id(pl)][1] < si]
+        if here:
+            return frozenset([max(here)[1]])
+        if l not in self._rd:
+            b = self.body
+            nb = sorted(b.normal_blocks())
+            last = {}
+            for k, (db, kind, pl) in enumerate(ds):
+                if db not in last or self.pos[id(pl)][1] > self.pos[id(ds[last[db]][2])][1]:
+                    last[db] = k
+            IN = {x: set() for x in nb}
+            OUT = {x: set() for x in nb}
+            IN[0] = {'entry'}
+            changed = True
+            while changed:
+                changed = False
+                for x in nb:
+                    i = set(IN[x])
+                    for p in b.pred(x):
+                        if p in OUT:
+                            i |= OUT[p]
+                    o = {last[x]} if x in last else set(i)
+                    if i != IN[x] or o != OUT[x]:
+                        IN[x], OUT[x] = i, o
+                        changed = True
+            self._rd[l] = IN
+        return frozenset(self._rd[l].get(bi, set()))
+
+    def var_at(self, l, site):
+        """the value of a multi-definition local read at `site`: its only reaching definition, else a variable"""
+        if site is None:
+            return (self.VAR, l)
+        rd = self.reaching(l, site)
+        ds = self.defs.get(l, [])
+        if len(rd) == 1 and 'entry' not in rd:
+            k = next(iter(rd))
+            b_, kind, pl = ds[k]
+            if kind != 'partial' and (l, k) not in self._expanding:
+                self._expanding.add((l, k))
+                try:
+                    return self.rvalue(pl) if kind == 'rv' else self.call(pl)
+                finally:
+                    self._expanding.discard((l, k))
+        if rd == frozenset(range(len(ds))) or self.VAR != 'var':
+            return (self.VAR, l)            # every definition reaches: the loop-carried value
+        if rd == frozenset(['entry']) and 1 <= l <= self.body.argc:
+            return self.args[l - 1] if self.args is not None else ('arg', l)
+        return (self.VAR, l, tuple(sorted(str(x) for x in rd)))
 
     # -- operands / places
-    def operand(self, o):
+    def operand(self, o, site=None):
         k = o.get('o')
         if k == 'k':
             if 'i' in o:
@@ -167,10 +228,10 @@ class TermBuilder:
             if 'fn' in o:
                 return ('k', None, 'fn:' + o['fn'])
             return ('k', None, o.get('ty', '?') + (':' + str(o['v']) if 'v' in o else ''))
-        return self.place(o['p'])
+        return self.place(o['p'], site)
 
-    def place(self, p):
-        t = self.local(p[0])
+    def place(self, p, site=None):
+        t = self.local(p[0], site)
         for pr in p[1:]:
             t = self.project(t, pr)
         return t
@@ -193,7 +254,9 @@ class TermBuilder:
                 return t[2][n]
         return ('fld', t, pr)
 
-    def local(self, l):
+    def local(self, l, site=None):
+        if site is not None and self.memo.get(l) == (self.VAR, l):
+            return self.var_at(l, site)
         if l in self.memo:
             return self.memo[l]
         argc = self.body.argc
@@ -206,7 +269,7 @@ class TermBuilder:
             self.memo[l] = (self.VAR, l)
             if l not in self.var_defs:
                 self.var_defs[l] = None           # computed lazily (cycles)
-            return self.memo[l]
+            return self.var_at(l, site) if site is not None else self.memo[l]
         self.memo[l] = (self.VAR, l)                 # cycle guard
         bi, kind, pl = ds[0]
         r = self.rvalue(pl) if kind == 'rv' else self.call(pl)
@@ -229,35 +292,37 @@ class TermBuilder:
 
     def rvalue(self, r):
         k = r['k']
+        site = self.pos.get(id(r))
         if k == 'use':
-            return self.operand(r['a'][0])
+            return self.operand(r['a'][0], site)
         if k == 'ref' or k == 'addr':
-            return self.place(r['p'])
+            return self.place(r['p'], site)
         if k == 'bin':
             op = r['op']
-            a, b = self.operand(r['a'][0]), self.operand(r['a'][1])
+            a, b = self.operand(r['a'][0], site), self.operand(r['a'][1], site)
             if op in WOV:
                 return ('ovf', ('bin', WOV[op], a, b)) if op.endswith('WithOverflow') else ('bin', WOV[op], a, b)
             return ('bin', op, a, b)
         if k == 'un':
-            return ('un', r['op'], self.operand(r['a'][0]))
+            return ('un', r['op'], self.operand(r['a'][0], site))
         if k == 'cast':
-            a = self.operand(r['a'][0])
+            a = self.operand(r['a'][0], site)
             if r.get('ck') == 'IntToInt':
                 return ('cast', r.get('to'), a)
             return a
         if k == 'agg':
-            return ('agg', r.get('ak', '?'), tuple(self.operand(x) for x in r['a']))
+            return ('agg', r.get('ak', '?'), tuple(self.operand(x, site) for x in r['a']))
         if k == 'discr':
-            return ('disc', self.place(r['p']))
+            return ('disc', self.place(r['p'], site))
         if k == 'len':
-            return ('len', self.place(r['p']))
+            return ('len', self.place(r['p'], site))
         if k == 'copy_for_deref':
-            return self.place(r['p'])
+            return self.place(r['p'], site)
         return ('rv', k, repr(sorted(r.items()))[:80])
 
     def call(self, t):
-        args = tuple(self.operand(a) for a in t['a'])
+        site = self.pos.get(id(t))
+        args = tuple(self.operand(a, site) for a in t['a'])
         names = [t.get('r'), t.get('f')]
         name = names[0] or names[1] or '?'
         full = t.get('ra') or t.get('fa') or name
